@@ -333,6 +333,12 @@ def kwarg(call, name, pos=None):
     return None
 
 
+def kwargs_open(call):
+    """the call hands over keywords (or positions) that are not written at the call: f(**opts), f(*args) - `kwarg()` not finding a
+    keyword there does not mean it is not passed"""
+    return any(k.arg is None for k in call.keywords) or any(isinstance(a, ast.Starred) for a in call.args)
+
+
 def params_of(fnode):
     a = fnode.args
     return [x.arg for x in a.posonlyargs + a.args], [x.arg for x in a.kwonlyargs], a.vararg, a.kwarg
@@ -1170,6 +1176,16 @@ def _prune_ifexp(s, consts):
         env_ = {k: v for k, v in env_.items() if k not in tg}
         if env_ and any(isinstance(n, ast.Name) and n.id in env_ and isinstance(n.ctx, ast.Load) for n in ast.walk(s)):
             s = _SubstEnv(env_).visit(copy.deepcopy(s))
+        # attribute chains holding a literal label (`self.plot`): written as the literal where they are read
+        aenv = {k: v for k, v in consts.items() if "." in k and (v is None or isinstance(v, (str, bool)))}
+        if aenv and any(isinstance(n, ast.Attribute) and isinstance(n.ctx, ast.Load) and src(n) in aenv for n in ast.walk(s)) \
+                and not any(isinstance(n, ast.Attribute) and isinstance(n.ctx, (ast.Store, ast.Del)) and src(n) in aenv for n in ast.walk(s)):
+            class A(ast.NodeTransformer):
+                def visit_Attribute(self, n):
+                    if isinstance(n.ctx, ast.Load) and src(n) in aenv:
+                        return ast.copy_location(ast.Constant(value=aenv[src(n)]), n)
+                    return self.generic_visit(n)
+            s = ast.fix_missing_locations(A().visit(copy.deepcopy(s)))
     if not any(isinstance(n, ast.IfExp) and const_test(n.test, consts) is not _UNDEC for n in ast.walk(s)):
         return s
 
@@ -1180,6 +1196,34 @@ def _prune_ifexp(s, consts):
                 return self.generic_visit(n)
             return self.visit(n.body if t else n.orelse)
     return ast.fix_missing_locations(T().visit(copy.deepcopy(s)))
+
+
+def dominating_attr_store(fi, at, text):
+    """the value most recently stored into the attribute written `text` (`self.x_click`) on EVERY path that reaches node `at` inside
+    fi: ("value", expr) / ("maybe", None) when a store sits in a branch or loop before `at` / ("none", None) when fi stores nothing
+    into it before `at`"""
+    pm = parent_map(fi.node)
+    cur = at
+    while cur is not None and not isinstance(cur, ast.stmt):
+        cur = pm.get(cur)
+    maybe = False
+    while cur is not None and cur is not fi.node:
+        par = pm.get(cur)
+        for field in ("body", "orelse", "finalbody"):
+            blk = getattr(par, field, None) if par is not None else None
+            if isinstance(blk, list) and any(x is cur for x in blk):
+                i = next(k for k, x in enumerate(blk) if x is cur)
+                for prev in reversed(blk[:i]):
+                    if isinstance(prev, ast.Assign) and any(isinstance(t, ast.Attribute) and src(t) == text for t in prev.targets):
+                        return ("maybe", None) if maybe else ("value", expr_at(fi, prev, prev.value))
+                    if any(isinstance(x, ast.Attribute) and isinstance(x.ctx, (ast.Store, ast.Del)) and src(x) == text for x in ast.walk(prev)):
+                        maybe = True
+                    if any(isinstance(x, ast.Call) and isinstance(x.func, ast.Attribute) and isinstance(x.func.value, ast.Name) and x.func.value.id == "self" for x in ast.walk(prev)):
+                        pass        # calls on self may store as well: not followed here (the caller inlines what it can first)
+        if isinstance(par, (ast.For, ast.While)):
+            maybe = maybe or any(isinstance(x, ast.Attribute) and isinstance(x.ctx, (ast.Store, ast.Del)) and src(x) == text for x in ast.walk(par))
+        cur = par
+    return ("maybe", None) if maybe else ("none", None)
 
 
 def attr_stores(fnode, text):
@@ -1432,6 +1476,44 @@ def dictcomp_items(x):
     return items
 
 
+def _model_subset_items(prog, fi, x):
+    """{n: D[n] for n in D if n in ("a", "b")} with D = dict(self.run_params) (or .model_dump() / vars(..)): the named fields of the
+    parameter model, those that are not fields of it silently left out -> [(name, self.run_params.name)]"""
+    if not (isinstance(x, ast.DictComp) and len(x.generators) == 1):
+        return None
+    g = x.generators[0]
+    if not (isinstance(g.target, ast.Name) and isinstance(x.key, ast.Name) and x.key.id == g.target.id and len(g.ifs) == 1):
+        return None
+    n = g.target.id
+    c = g.ifs[0]
+    if not (isinstance(c, ast.Compare) and len(c.ops) == 1 and isinstance(c.ops[0], ast.In) and isinstance(c.left, ast.Name) and c.left.id == n
+            and isinstance(c.comparators[0], (ast.Tuple, ast.List, ast.Set)) and all(isinstance(e_, ast.Constant) and isinstance(e_.value, str) for e_ in c.comparators[0].elts)):
+        return None
+    names = [e_.value for e_ in c.comparators[0].elts]
+
+    def model_of(e):
+        """the model object a `dict(X)` / `X.model_dump()` / `vars(X)` / `X.__dict__` is made of"""
+        if isinstance(e, ast.Call) and isinstance(e.func, ast.Name) and e.func.id in ("dict", "vars") and len(e.args) == 1 and not e.keywords:
+            return e.args[0]
+        if isinstance(e, ast.Call) and isinstance(e.func, ast.Attribute) and e.func.attr in ("model_dump", "dict") and not e.args and not e.keywords:
+            return e.func.value
+        if isinstance(e, ast.Attribute) and e.attr == "__dict__":
+            return e.value
+        return None
+    X = model_of(g.iter)
+    if X is None or not (isinstance(X, ast.Attribute) and isinstance(X.value, ast.Name) and X.value.id == "self" and X.attr == "run_params"):
+        return None
+    v = x.value
+    ok = (isinstance(v, ast.Subscript) and isinstance(v.slice, ast.Name) and v.slice.id == n and model_of(v.value) is not None and dump(model_of(v.value)) == dump(X)) or \
+         (isinstance(v, ast.Call) and isinstance(v.func, ast.Name) and v.func.id == "getattr" and len(v.args) == 2 and dump(v.args[0]) == dump(X) and isinstance(v.args[1], ast.Name) and v.args[1].id == n)
+    if not ok:
+        return None
+    fields = prog.model_fields(fi.cls, "RunParamCls") if getattr(fi, "cls", None) is not None else None
+    if fields is None:
+        return None
+    return [(k, ast.Attribute(value=copy.deepcopy(X), attr=k, ctx=ast.Load())) for k in names if k in fields]
+
+
 def _notnone_default(v, callee_node, name):
     """`x if x is not None else <callee default>` is `x` when the callee's own default for that parameter is None"""
     if isinstance(v, ast.IfExp) and isinstance(v.orelse, ast.Name) and v.orelse.id == CALLEE_DEFAULT and isinstance(v.test, ast.Compare) \
@@ -1452,6 +1534,27 @@ def bind_call(prog, fi, callee_node, call, bound=False):
     m, errs = bind_args(callee_node, call, bound=bound)
     complete = True
     pos, kwonly, vararg, kwarg_ = params_of(callee_node)
+    if any(isinstance(a, ast.Starred) for a in call.args):
+        # f(a, *t, b): positions are known when every spread is a literal tuple / list at this point; otherwise nothing can be said
+        # about the positional parameters ("not passed" would be a guess)
+        flat = []
+        for a in call.args:
+            if isinstance(a, ast.Starred):
+                x = expr_at(fi, call, a.value)
+                if isinstance(x, (ast.Tuple, ast.List)) and not any(isinstance(e_, ast.Starred) for e_ in x.elts):
+                    flat.extend(x.elts)
+                else:
+                    flat = None
+                    break
+            else:
+                flat.append(a)
+        if flat is None:
+            complete = False
+        else:
+            ppos = pos[1:] if bound and pos else pos
+            for i, a in enumerate(flat):
+                if i < len(ppos) and ppos[i] not in m:
+                    m[ppos[i]] = a
     for k in call.keywords:
         if k.arg is not None:
             continue
@@ -1463,6 +1566,8 @@ def bind_call(prog, fi, callee_node, call, bound=False):
             items = [(kw.arg, kw.value) for kw in x.keywords]
         if items is None and isinstance(x, ast.DictComp):
             items = dictcomp_items(x)
+            if items is None:
+                items = _model_subset_items(prog, fi, x)
         if items is None and isinstance(x, ast.Call) and isinstance(x.func, ast.Attribute) and x.func.attr in ("model_dump", "dict"):
             inc = kwarg(x, "include")
             if isinstance(inc, (ast.Set, ast.List, ast.Tuple)) and all(isinstance(e_, ast.Constant) and isinstance(e_.value, str) for e_ in inc.elts):
